@@ -111,7 +111,9 @@ PtList(S) == LET RECURSIVE Go(_) Go(i) == IF i > Len(PtKeys) THEN <<>> ELSE (IF 
 RevSeq(q) == [i \in 1..Len(q) |-> q[Len(q) + 1 - i]]
 PtMixed == { [st |-> Select(<<>>, w, <<>>, <<>>, NoLim), sid |-> "T"] :
                w \in { AIn(AKey, <<AStr(a), AVal>>), AIn(AKey, <<AVal, AStr(c1)>>), AIn(AKey, <<AStr(a), Call1("lower", AVal), AStr(bb)>>),
-                       ABin("|", AIn(AKey, <<AStr(c2), AVal>>), ABin("=", AKey, AStr(a))), ABin("&", AIn(AKey, <<AStr(a), AVal>>), ABin("!=", AVal, AStr(<<120>>))) } }
+                       ABin("|", AIn(AKey, <<AStr(c2), AVal>>), ABin("=", AKey, AStr(a))), ABin("&", AIn(AKey, <<AStr(a), AVal>>), ABin("!=", AVal, AStr(<<120>>))),
+                       \* a range that is one point (equal bounds): refused, and refused alike by both iteration modes
+                       ABetween(AKey, AStr(ab), AStr(ab)), ABetween(Call1("strlen", AKey), AInt(2), AInt(2)), ABin("|", ABetween(AVal, AKey, AKey), ABin("=", AKey, AStr(a))) } }
 PtCases == PtMixed \cup { [st |-> Select(<<>>, w, <<>>, <<>>, NoLim), sid |-> "T"] :
                w \in UNION { { AIn(AKey, PtList(S)), ABin("&", AIn(AKey, PtList(S)), ABin("!=", AVal, AStr(<<120>>))),
                                AIn(AKey, RevSeq(PtList(S))) }                                   \* written in descending order: rows still ascend
